@@ -75,6 +75,7 @@ class Env:
             self.origin[name] = t._local_tsn
             t.on("datachannel", self._mk_on_datachannel(name))
         self._last_state = {}
+        self._last_dlv_index = {}
         self._buf0 = {}
         self._sent_this_step = {}
         self._lows = {}
@@ -176,9 +177,11 @@ class Env:
                     mid = -1
         if mid >= 0:
             # was it sent on this channel by the peer?
-            for m in peer_sent:
+            for i, m in enumerate(peer_sent):
                 if m[0] == mid:
                     intact = (m[1] == data and type(m[1]) is type(data))
+                    m[2] = True
+                    self._last_dlv_index[(tok, side)] = max(self._last_dlv_index.get((tok, side), -1), i)
                     break
             else:
                 # sent elsewhere?  look it up globally so that A can name the clause
@@ -187,12 +190,18 @@ class Env:
                 return
             self.ev(k="msg", e=side, c=tok, m=mid, intact=bool(intact), known=True, onchan=True)
             return
-        # short messages (incl. empty): match the earliest undelivered equal value
-        for m in peer_sent:
-            if not m[2] and m[1] == data and type(m[1]) is type(data):
-                m[2] = True
-                self.ev(k="msg", e=side, c=tok, m=m[0], intact=True, known=True, onchan=True)
-                return
+        # short messages (incl. empty) cannot carry an id: match an undelivered equal value -
+        # on ordered channels preferably one sent after the last delivered message, so that
+        # an in-order delivery is never mistaken for a reordering
+        last = self._last_dlv_index.get((tok, side), -1) if self.chan[tok]["params"]["ordered"] else -1
+        cands = [i for i, m in enumerate(peer_sent) if not m[2] and m[1] == data and type(m[1]) is type(data)]
+        pick = [i for i in cands if i > last] or cands
+        if pick:
+            m = peer_sent[pick[0]]
+            m[2] = True
+            self._last_dlv_index[(tok, side)] = max(last, pick[0])
+            self.ev(k="msg", e=side, c=tok, m=m[0], intact=True, known=True, onchan=True)
+            return
         self.ev(k="msg", e=side, c=tok, m=-1, intact=False, known=False, onchan=False)
 
     def _poll_state(self, tok, side):
@@ -302,7 +311,7 @@ class Env:
         self.nmsg += 1
         mid = self.nmsg
         if size < 12:
-            body = ("abcdefghijk"[:size]) if size else ""
+            body = ((str(mid)[::-1] + "abcdefghijk")[:size]) if size else ""
             data = body if kind == "str" else body.encode()
             return mid, data
         head = "#%d|" % mid
